@@ -109,7 +109,7 @@ static St *Lp;
 
 static int p_del_queued_timer, p_del_queued_fd, p_del_queued_job, p_del_queued_sig, p_self_del, p_readd_in_cb, p_stale_handle,
 	p_slot_reuse_stale, p_fd_reuse, p_two_sig_then_del, p_retneg, p_retneg_open, p_close_retneg, p_number_reused_in_cb, p_default_loop, p_sig_mod, p_fd_mod_data, p_stop, p_throttle50, p_ms31, p_ms32, p_overflow, p_equal_expiry,
-	p_timer_fired, p_nohandle, p_nested, p_job_del_foreign, p_long_run, p_eintr_epoll, p_eintr_retry, p_async_sig, p_hup, p_busy;
+	p_timer_fired, p_nohandle, p_adders, p_nested, p_job_del_foreign, p_long_run, p_eintr_epoll, p_eintr_retry, p_async_sig, p_hup, p_busy;
 
 static void init(const char *prop)
 {
@@ -141,6 +141,7 @@ static void init(const char *prop)
 	p_long_run = counter_id("probe", "run_longer_than_1000_iterations");
 	p_eintr_epoll = counter_id("probe", "epoll_wait_eintr");
 	p_nohandle = counter_id("probe", "timer_added_without_asking_for_a_handle");
+	p_adders = counter_id("probe", "timers_added_by_several_threads_at_once");
 	p_nested = counter_id("probe", "second_loop_instance_run_from_a_callback");
 	p_job_del_foreign = counter_id("probe", "job_del_naming_a_pending_timers_callback_and_data");
 	p_eintr_retry = counter_id("stat", "epoll_wait_restarted_by_the_driver_after_eintr");
@@ -887,6 +888,12 @@ static void gen(const char *prop, RunSpec &spec)
 	uint64_t base = r.chance(3, 4) ? (uint64_t)r.range(1, 1000000) * 1000000000ULL + r.below(1000000000)
 				       : (1ULL << 63) - r.below(5000000000ULL);
 	p.set("mono_base", (int64_t)base);
+	if ((w == 9 || w == 8) && r.chance(1, 14)) {
+		// several threads adding timers at the same time (run_adders); nothing else happens in such a run
+		p.set("adders", r.range(2, 4)); p.set("adds_each", r.range(1, 6));
+		p.set("njobs", 0); p.set("ntimers", 0); p.set("nfds", 0); p.set("nsigs", 0); p.set("max_iter", 5);
+		return;
+	}
 	if (w == 10) {
 		int nj = (int)r.range(0, 4), nt = (int)r.range(0, 3), nf = (int)r.range(0, 3);
 		// now and then many always-ready descriptors, all at one level (more than one turn's worth)
@@ -1071,6 +1078,73 @@ static void loop_task(void *)
 	L.loop = NULL;
 }
 
+
+// ------------------------------------------------------------------ C09/C08: several threads adding timers at once
+// qb_loop_timer_add() is the one loop call the library makes safe for other threads (it takes the timer source's lock):
+// N tasks add M far-off timers each, every libc call and lock operation inside being a possible switch point; afterwards
+// every handle must name its own pending timer (distinct, running, deletable exactly once).  The loop itself does not run.
+struct AddRec { qb_loop_timer_handle h; int rc; uint64_t dur; int task; };
+static std::vector<AddRec> g_added;
+static int g_adders_done, g_adders_n, g_adders_m;
+static void adder_cb(void *) {}
+static void adder_task(void *arg)
+{
+	int me = (int)(intptr_t)arg;
+	for (int k = 0; k < g_adders_m && !failed(); k++) {
+		AddRec a; a.h = 0; a.task = me;
+		a.dur = (uint64_t)(3600 + me * 100 + k) * 1000000000ULL;
+		a.rc = qb_loop_timer_add(L.loop, (enum qb_loop_priority)((me + k) % 3), a.dur, &g_added, adder_cb, &a.h);
+		g_added.push_back(a);
+		yield(Y_OP, 700 + (uint32_t)me);
+	}
+	g_adders_done++;
+}
+static bool adders_all_done(void *) { return g_adders_done >= g_adders_n; }
+static void adders_check_task(void *)
+{
+	block_until(adders_all_done, NULL, -1, 799);
+	if (failed()) return;
+	for (size_t i = 0; i < g_added.size() && !failed(); i++) {
+		const AddRec &a = g_added[i];
+		if (a.rc != 0) { VIOL(0, "timer-add-failed", "qb_loop_timer_add", "qb_loop_timer_add from thread %d returned %d", a.task, a.rc); break; }
+		for (size_t j = 0; j < i; j++)
+			if (g_added[j].h == a.h) VIOL(9, "timer-handle-shared", "qb_loop_timer_add", "two timers added by threads %d and %d at the same time got the same handle", g_added[j].task, a.task);
+		uint64_t rem = qb_loop_timer_expire_time_remaining(L.loop, a.h);
+		int run = qb_loop_timer_is_running(L.loop, a.h);
+		if (rem == 0 || !run)
+			VIOL(9, "query-says-not-running", "qb_loop_timer_expire_time_remaining", "timer %zu (added by thread %d while other threads were adding theirs) is pending but remaining=%llu is_running=%d", i, a.task, (unsigned long long)rem, run);
+		else if (rem > a.dur)
+			VIOL(9, "query-remaining-too-large", "qb_loop_timer_expire_time_remaining", "timer %zu added by thread %d: remaining %llu ns exceeds its duration %llu ns", i, a.task, (unsigned long long)rem, (unsigned long long)a.dur);
+	}
+	for (size_t i = 0; i < g_added.size() && !failed(); i++) {
+		int r = qb_loop_timer_del(L.loop, g_added[i].h);
+		if (r != 0) VIOL(8, "delete-refused", "qb_loop_timer_del", "qb_loop_timer_del of pending timer %zu (added by thread %d while other threads were adding theirs) returned %d", i, g_added[i].task, r);
+		else if (qb_loop_timer_del(L.loop, g_added[i].h) == 0) VIOL(8, "stale-handle-accepted", "qb_loop_timer_del", "timer %zu was deleted twice", i);
+	}
+	count(p_adders);
+}
+static void run_adders(const RunSpec &spec, int n, int m)
+{
+	g_added.clear(); g_adders_done = 0; g_adders_n = n; g_adders_m = m;
+	shim_reset();
+	shim_cfg().extra_yields = 1;
+	shim_random_seed(spec.seed);
+	SchedCfg sc;
+	sched_cfg_from_seed(spec.seed, n + 1, 400, 400000, sc);
+	sched_begin(spec, sc);
+	set_time_base(spec.plan.get("mono_base", 1000000000), 1700000000LL * 1000000000LL);
+	L.loop = qb_loop_create();
+	if (L.loop) {
+		for (int k = 0; k < n; k++) task_create(1, adder_task, (void *)(intptr_t)k, "adder");
+		task_create(1, adders_check_task, NULL, "check");
+		sched_run();
+	}
+	sched_end();
+	if (L.loop) { qb_loop_destroy(L.loop); L.loop = NULL; }
+	set_nontrivial(1);
+	result().fingerprint = result().ev_hash;
+}
+
 static void run(const char *prop, const RunSpec &spec)
 {
 	which = atoi(prop + 1);
@@ -1078,6 +1152,11 @@ static void run(const char *prop, const RunSpec &spec)
 	St st;
 	Lp = &st;
 	L.spec = &spec;
+	if (p.get("adders", 0) > 0) {
+		run_adders(spec, (int)std::max<int64_t>(2, std::min<int64_t>(4, p.get("adders"))), (int)std::max<int64_t>(1, std::min<int64_t>(8, p.get("adds_each", 3))));
+		Lp = NULL;
+		return;
+	}
 	L.nj = (int)std::max<int64_t>(0, std::min<int64_t>(16, p.get("njobs")));
 	L.nt = (int)std::max<int64_t>(0, std::min<int64_t>(64, p.get("ntimers")));
 	L.nf = (int)std::max<int64_t>(0, std::min<int64_t>(10, p.get("nfds")));
